@@ -104,8 +104,9 @@ def r2_position(ctx, seven):
     try:
         a = affine(val.args[0], None, term)
     except NotAffine as e:
-        ctx.violation('R2', cp.loc, cp.qualname, 'position-not-affine', f'the staff position is not affine in the pitch: {e}')
-        return
+        # the expression is outside the affine fragment the rule reads (a product with a constant it does not resolve, a helper it
+        # does not follow): nothing is known about it - not "wrong"
+        raise AnalysisError(f'{cp.loc}: the staff position `{src(val.args[0])[:80]}` is outside the affine fragment ({e}): not decided')
 
     def strip_forms(q):
         return {f"AgnosticPitch({q}.name.replace('+', '').replace('-', ''), {q}.octave).name",
